@@ -411,6 +411,9 @@ fn spawn_logical<F: FnOnce() + Send + 'static>(f: F, first: bool) -> usize {
         }
         rt.threads[tid].state = ThState::Finished;
         if rt.aborted.is_none() {
+          rt.ev(tid, "{\"ev\":\"exit\"}".to_string());
+        }
+        if rt.aborted.is_none() {
           // hand over
           match rt.pick() {
             Some(next) => {
@@ -492,7 +495,7 @@ where
         },
         false,
       );
-      with_rt(|rt| rt.ev(me, format!("spawn t{}", tid)));
+      with_rt(|rt| rt.ev(me, format!("{{\"ev\":\"spawn\",\"v\":{}}}", tid)));
       // schedule point after spawn
       let g = RT.lock().unwrap();
       reschedule(g, me);
